@@ -1,0 +1,15 @@
+//go:build verif
+
+// Contracts for the deductive checks in /verif (comment-only; not part of normal builds).
+
+package errors
+
+// ErrorCode.New formats a message (fmt, tracerr stack capture) and logs it. Its only effect
+// relevant to the verified properties is that it returns a fresh non-nil *singleOrdaError
+// carrying the code. Trusted (not verified: the body is string formatting and stack capture).
+//@ func (ErrorCode).New
+//@   trusted wraps fmt/tracerr/logging; panics only for codes outside 100..499 (all call sites use declared constants)
+//@   mode math
+//@   fresh
+//@   ensures result != nil && result.(*singleOrdaError) && result.(*singleOrdaError).Code == its
+//@   modifies singleOrdaError.Code
